@@ -122,9 +122,9 @@ class SqwModel(Model):
 
     def x_struct_pack(self, interp, args, kwargs, node):
         fmt, vals = args[0], args[1:]
-        if not isinstance(fmt, str) or len(vals) != 1 or fmt[-1:] not in ('d', 'f') or len(fmt) != 2:
+        if not isinstance(fmt, str) or len(vals) != 1 or fmt[-1:] not in ('d', 'f') or len(fmt) not in (1, 2):
             raise AnalysisError(f'struct.pack format {fmt!r} outside the modelled subset at {interp.where(node)}')
-        dt = AbsDtype('float64' if fmt[-1] == 'd' else 'float32', absio._order(fmt[0]))
+        dt = AbsDtype('float64' if fmt[-1] == 'd' else 'float32', absio._order(fmt[0] if len(fmt) == 2 and fmt[0] != '@' else '='))
         v = vals[0]
         if isinstance(v, Opaque):
             raise LayoutMismatch(f'value written at {interp.where(node)} is unknown to the analysis: {v!r}')
@@ -132,9 +132,9 @@ class SqwModel(Model):
 
     def x_struct_unpack(self, interp, args, kwargs, node):
         fmt, buf = args[0], args[1]
-        if not isinstance(fmt, str) or fmt[-1:] not in ('d', 'f') or len(fmt) != 2:
+        if not isinstance(fmt, str) or fmt[-1:] not in ('d', 'f') or len(fmt) not in (1, 2):
             raise AnalysisError(f'struct.unpack format {fmt!r} outside the modelled subset at {interp.where(node)}')
-        dt = AbsDtype('float64' if fmt[-1] == 'd' else 'float32', absio._order(fmt[0]))
+        dt = AbsDtype('float64' if fmt[-1] == 'd' else 'float32', absio._order(fmt[0] if len(fmt) == 2 and fmt[0] != '@' else '='))
         return (absio.unpack_value(dt, absio.units_of(buf), f'struct.unpack at {interp.where(node)}'),)
 
     def x_builtins_int_from_bytes(self, interp, args, kwargs, node):
@@ -547,6 +547,6 @@ class SqwInterp(Interp):
         return super().iterate(v, node)
 
     def subscript(self, obj, key, node):
-        if isinstance(obj, ClassRef):
+        if isinstance(obj, ClassRef | ExtRef):
             return obj  # generic alias
         return super().subscript(obj, key, node)
